@@ -1,6 +1,6 @@
 """C18 — MPS round trip (DESIGN §5 C18): the writer emits only what the reader accepts and loses nothing."""
 from .common import *
-from .C17 import literal_table, strip_generic_args, Sx, SxLimit, SxOracle, sx_paths, sx_loop_paths, sx_calls, sx_walk, sx_strip, sx_str, failure_is_error, FailCase
+from .C17 import literal_table, keyword_literals, strip_generic_args, Sx, SxLimit, SxOracle, sx_paths, sx_loop_paths, sx_calls, sx_walk, sx_strip, sx_str, failure_is_error, FailCase
 
 VIEW = 'norm'
 
@@ -156,7 +156,7 @@ def reader_tables(ctx):
         b = ctx.F.one(ty, fn, trait=trait)
         if b is None:
             ctx.lost('C18.keywords/reader-table', '%s::%s' % (ty, fn)); tabs[key] = set(); continue
-        ctx.fn(b); tabs[key] = set(literal_table(b))
+        ctx.fn(b); tabs[key] = keyword_literals(ctx, b)          # (in the reader or in the FromStr impl it parses the keyword with)
     hb = ctx.F.one('mps::parser::State', 'read_header')
     tabs['header'] = {c.args[1]['v'].strip('"') for c in hb.calls if c.item == 'strip_prefix' and len(c.args) > 1 and c.args[1]['k'] == 'const'} if hb else set()
     return tabs
@@ -550,7 +550,10 @@ def ids_rules(ctx, W):
         s = ctx.S.backslice(b, [0])
         cs = [x for x in s.consts if const in x]
         lits = [p for p in templates_of(b) if p.strip()]
-        ctx.check(s.has_field(*field) and bool(cs) and not lits, R + '/%s/prefix-plus-id' % fn, 'T-CARRY', b.name, 'name is not exactly <%s><id> (constants %s, literal pieces %s)' % (const, cs, lits), b.site())
+        # a function of the id only: no other field of the constraint / variable (its own name, ..) may flow into the generated name,
+        # or the reader's id recovery (all names must be <prefix><id>) is switched off for the whole file
+        others = sorted({f for a, f in s.fields if a.endswith(field[0]) and f != field[1]})
+        ctx.check(s.has_field(*field) and bool(cs) and not lits and not others, R + '/%s/prefix-plus-id' % fn, 'T-CARRY', b.name, 'name is not exactly <%s><id> (constants %s, literal pieces %s, other fields used %s)' % (const, cs, lits, others), b.site())
     # the reader's recovery uses the same constants
     for fn, const in (('convert_dvars', 'VAR_PREFIX'), ('convert_constraints', 'CONSTR_PREFIX')):
         b = ctx.free_fn(R + '/reader/%s/anchor' % fn, 'mps::convert::' + fn)
